@@ -64,6 +64,26 @@ CHECKS = {
               "<= max_tx + 1; non-trivial = history with >=2 data calls in which a headers callback fired"),
         assumptions=STREAM_ASSUME,
     ),
+    "C12": dict(
+        bins=["c12"], replay_bin="c12", campaigns=lambda tier, seed: [dict(name="c12", bin="c12", shards=16, timeout=2400)], level="exploration",
+        rule=("every string over the 14 bytes {/ . % u \\ 2 f 5 c 0 A NUL C0 AF} up to length 4 (thorough 5) x all 768 points of the path-decoder switch lattice "
+              "(backslash, lowercase, compress, separators-decode, raw-NUL-terminates, encoded-NUL-terminates, %u decode, invalid handling x3, UTF-8 best-fit), one more "
+              "length on a rotating eighth of the lattice; all sequences of up to 3 (thorough 4) tokens from a 34-token dictionary of escapes, overlong/full-width/"
+              "truncated UTF-8 and dot segments x 768 configurations; random byte strings up to 64 B; the ten personalities through the public request route (tied to "
+              "the direct call and to the model); the URLENCODED context through the public htp_urldecode_inplace_ex over an 11-symbol alphabet up to length 6 (7) x 48 "
+              "configurations. Oracle: independent tokenise-then-map reference model (harness/refdec.hpp): path equality, length <= raw, no dot segment, idempotence, each "
+              "anomaly flag iff the construct occurs. Non-trivial = string with an escape or UTF-8 lead byte AND one of / . \\ ; distinct by string"),
+        assumptions=["where htp_config.h is silent the model is pinned to observed behaviour; the pins are listed in coverage.notes",
+                     "response_status_expected_number is not asserted (outside the property statement)"],
+    ),
+    "C13": dict(
+        bins=["c13"], replay_bin="c13", campaigns=lambda tier, seed: [dict(name="c13", bin="c13", shards=16, timeout=1500)], level="exploration",
+        rule=("every string over {a : / @ ? # [ ] . 0 9 SP} up to length 7 (thorough 8), enumerated exhaustively shortest-first, through htp_parse_uri + "
+              "htp_normalize_parsed_uri with a real transaction; plus rapidcheck strings over all bytes up to 48 B (half of them with a scheme:// prefix) and "
+              "token strings through the public request-line route (GET and CONNECT); oracle = re-join predicate + leading-slash rule + port value/invalid rule. "
+              "Non-trivial = an authority was actually parsed (hostname reported); distinct by target string"),
+        assumptions=["the request-line route is sampled, not enumerated; CONNECT authorities are compared case-insensitively (htp_parse_hostport lower-cases port-less hosts)"],
+    ),
     "C17": dict(
         bins=["c17"], replay_bin="c17", campaigns=_c17, level="exploration",
         rule=("list: every op sequence over {push,pop,shift,replace} up to depth 11 (thorough 13) on capacities 1..3 (exhaustive BFS) "
